@@ -49,6 +49,14 @@ def run(ctx):
     orc = numeric.oracle_c05(ctx)
     n = ctx.budget(12, 500)
     eems.run_stream(ctx, model, gen(ctx, list(eems.COMMANDS), n), "exec:all-commands:shapes", on_result=orc)
+    # every command once on a large grid (beyond 2^12 and 2^16 cells, where a size-dependent code path would start)
+    for cmd in eems.COMMANDS:
+        for shape, k in (((5,), 1000), ((3, 4), 6000)):
+            c = eems.gen_case(ctx.rng, cmd, style="valid", shape=shape)
+            o = eems.run_impl(c)
+            ctx.case("large " + c.line() + " x%d" % k, sample=None)
+            if o["status"] == "ok" and o["vis"][3] is not None:
+                eems.tile_twin(ctx, c, o, k)
     numeric.focus_search(ctx, model, lambda cmds, f: gen(ctx, cmds, n * f), orc)
     return ctx.finish(
         rule="cases = (data command, parameters, 1-5 inputs of one shape drawn from rank 1-3 shapes incl. length-1 axes); every case "
